@@ -12,10 +12,11 @@ Three things happen for every generated case (one reader construction + one hist
 PROP = 'C14'
 LEAN_MODULES = ['FalconModel.Reader', 'FalconModel.ReaderExtra', 'FalconModel.ReaderProofs', 'FalconModel.FindLemmas',
                 'FalconModel.ReadUntilProofs', 'FalconModel.RULoop', 'FalconModel.ReaderHistory', 'FalconModel.PeekProofs',
-                'FalconModel.ReaderC14', 'FalconModel.AsyncReader']
+                'FalconModel.ReaderC14', 'FalconModel.ReaderPublic', 'FalconModel.AsyncReader']
 DRIVERS = ['rddriver', 'ardriver']
 THEOREMS = [
     # --- headline statements (sync reader, any lawful source = every chunking / short-read pattern)
+    'Rd.public_history_refines_cursor', 'Rd.readerStep_refines', 'Rd.fresh_reader', 'Rd.tailPeek_chunk',
     'Rd.history_refines_cursor', 'Rd.implStep_refines', 'Rd.readUntilCore_refines', 'Rd.readCore_refines', 'Rd.readCore_pos_le',
     'Rd.performRead_spec', 'Rd.peek_refines', 'Rd.tailPeek_spec', 'Rd.finishRU_consume_peek', 'Rd.finalize_consume_of_notfound',
     'Rd.fragment_first_occ', 'Rd.find_spec', 'Rd.firstOcc_spec',
@@ -26,6 +27,9 @@ THEOREMS = [
     'Rd.specLines_fuel', 'Rd.stopAt_step', 'Rd.lineStop_of_stopAt', 'Rd.lineStop_big', 'Rd.normalize_irrelevant', 'Rd.fuel_enough',
     'Rd.abs_length_le', 'Rd.take_normalize', 'Rd.performRead_chunk', 'Rd.readCore_chunk', 'Rd.stopAt_big', 'Rd.stopAt_normalize',
     'Rd.stopAt_le_length', 'Rd.stopAt_zero', 'Rd.no_occ_nil',
+    # --- ReaderC14.lean: consume_delimiter=True for _read_until / read_until
+    'Rd.readUntil_consume_refines', 'Rd.readUntilCore_consume_refines', 'Rd.readUntilCore_consume_eq', 'Rd.readUntilLoop_consume',
+    'Rd.found_consume', 'Rd.notfound_consume', 'Rd.readCore_advance',
     # --- ReaderProofs.lean: the file-like source with any short-read oracle is a LawfulSource; _perform_read; _read
     'Rd.Src.read_fst', 'Rd.Src.read_snd_data', 'Rd.capOf_le', 'Rd.capOf_pos', 'Rd.Src.readLen_le_size', 'Rd.Src.readLen_le_data',
     'Rd.Src.readLen_pos', 'Rd.performReadLoop_spec', 'Rd.performReadLoop_full', 'Rd.drop_take_append_drop', 'Rd.take_len_add',
@@ -44,6 +48,9 @@ THEOREMS = [
     'Rd.fillBuffer_full',
 ]
 STATEMENTS = {
+    'Rd.public_history_refines_cursor': 'C14 for one synchronous reader: for every reader state satisfying the invariant, every lawful source (= every chunking and short-read pattern), every chunk size and every history of public operations read / peek / read_until / pipe_until (with or without consuming the delimiter, any size cap) / pipe / exhaust / readline / readlines with valid arguments (sizes None, -1 or >= 0; 1 <= len(delimiter) <= chunk size): the observations (bytes, list of lines, None, DelimiterError) are operation by operation those of the flat cursor cursorRun over abs(r), exactly the cursor\'s rest remains - nothing returned twice or skipped - and the invariant (incl. budget >= 0, i.e. never beyond max_stream_len) holds again',
+    'Rd.readerStep_refines': 'one public operation = one step of the flat cursor (same observation, same remaining text), invariant, pos <= len and chunk size preserved',
+    'Rd.fresh_reader': 'BufferedReader(read, max_stream_len >= 0, chunk_size > 0) starts in a state satisfying the invariant, with abs = the first max_stream_len bytes of the source',
     'Rd.history_refines_cursor': 'for every list of _read(n) / _read_until(d, n) calls (d non-empty, len(d) <= chunk size), every reader state satisfying the invariant and every lawful source (= every chunking and short-read pattern): the outputs are, call by call, what the flat cursor returns on abs(r) (take n / take up to the first occurrence of d, n bytes or the end), exactly the rest remains, and the invariant incl. pos <= len is re-established',
     'Rd.implStep_refines': 'one _read / _read_until step refines one cursor step and preserves the invariant and the chunk size',
     'Rd.readUntilCore_refines': "(= readUntil'_refines, prime-free name) _read_until(d, size, consume_delimiter=False) returns abs(r)[:stopAt d abs(r) size] - the text up to the first occurrence of d, size bytes or the end of the declared data - and leaves abs = the rest; holds for every buffer state, chunk size, delimiter of length 1..chunk and every lawful source",
@@ -54,6 +61,11 @@ STATEMENTS = {
     'Rd.exhaust_refines': 'after exhaust() nothing is left to read and the invariant holds',
     'Rd.readUntil_refines_all': 'read_until(d, size) with the delimiter not consumed, size None/-1/>= 0, 1 <= len(d) <= chunk, on BOTH branches (in-memory join up to 128 chunks, pipe_until above): returns abs(r)[:stopAt d abs(r) size] - up to the first occurrence of d, size bytes or the end - and leaves exactly the rest',
     'Rd.readUntil_refines': 'the same for the branch below the 128-chunk join limit',
+    'Rd.readUntil_consume_refines': 'read_until(d, size, consume_delimiter=True), size None/-1/>= 0, 1 <= len(d) <= chunk, both branches: returns the same bytes abs(r)[:k] (k = stopAt d abs(r) size) as without consumption; if abs(r)[k:k+len d] == d the cursor ends behind the delimiter, otherwise DelimiterError is raised and the cursor stays at k - i.e. exactly the flat-cursor semantics',
+    'Rd.readUntilCore_consume_refines': 'the same for _read_until(d, size, True) with an explicit size >= 0',
+    'Rd.readUntilCore_consume_eq': '_read_until(d, size, consume_delimiter=True) = the non-consuming _read_until followed by the tail "peek(len d) == d ? step over it : DelimiterError" - as an equation between results and reader states',
+    'Rd.readUntilLoop_consume': 'the while-True loop of _read_until with consume_bytes = len(d) equals the loop with consume_bytes = 0 followed by that tail, from every state satisfying the loop invariant (all six exits)',
+    'Rd.found_consume': 'on the two exits that have located the delimiter at buffer offset q, the quick check "_buffer_pos != delimiter_pos" decides exactly what peeking for the delimiter would decide',
     'Rd.pipeUntil_refines': 'pipe_until(d) without consuming the delimiter writes exactly abs(r)[:stopAt d abs(r) size] (the pieces of the chunk-wise loop concatenate to one read_until) and leaves the rest; the loop fuel is never exhausted',
     'Rd.pipeUntil_consume_refines': 'pipe_until(d, consume_delimiter=True) writes the same bytes; if the cursor is then at d it steps over it (abs = rest after the delimiter), otherwise it raises DelimiterError and the cursor stays just behind what was written',
     'Rd.readline_refines': 'readline(size), size None/-1/>= 0: returns abs(r)[:lineStop] - through the first LF, at most size bytes, at most to the end of the declared data - and leaves exactly the rest',
@@ -99,11 +111,10 @@ RULE = ('random part: data over {a,b,CR,LF,-} (uniform or delimiter-sparse) of l
         'Grid part: every data string up to length 3 (quick: complete to length 2, a fifth of length 3) / 4 (thorough) x chunk sizes {1..len+1, 64} x 3-4 source patterns x every history up '
         'to length 2 (quick, and thorough for length-4 data) / 3 (thorough, data up to length 3) over a fixed op alphabet (sync 18 ops, async 17 ops) incl. delimit/pop; one in 40 grid cases '
         'also goes to the model. non-trivial = some operation returned data; distinct = distinct (reader kind, construction, history)')
-PARTIAL = ('Proved for the sync reader over any lawful source (= every chunking): _perform_read, _read, read, peek, _read_until / read_until without delimiter consumption (both the join and the '
-           'pipe_until branch), pipe_until with and without delimiter consumption, pipe, exhaust, readline, readlines, every history of _read/_read_until calls, and the consume_delimiter tail of '
-           '_read_until for the three loop exits that do not locate the delimiter. Not proved (carried by correspondence + oracle): read_until(consume_delimiter=True) below the join limit on the two '
-           'exits that locate the delimiter, delimit_refines_subcursor (Delim as a LawfulSource - nested readers), a single history theorem over all public operations, and everything about the '
-           'async reader (AsyncReader.lean has no theorems; nested async readers are not in the model and are checked by the oracle only).')
+PARTIAL = ('Proved for the sync reader over any lawful source (= every chunking and short-read pattern): every history of public operations of one reader - read, peek, read_until and pipe_until '
+           'with and without delimiter consumption (join and pipe_until branch), pipe, exhaust, readline, readlines - refines the flat cursor (public_history_refines_cursor). Not proved (carried by '
+           'correspondence + oracle): delimit_refines_subcursor (Delim restricted to valid parents as a LawfulSource, i.e. that the theorems transfer to nested readers), and everything about the async '
+           'reader (AsyncReader.lean has no theorems; nested async readers are not in the model and are checked by the oracle only).')
 JOBS = {'quick': 4, 'thorough': 16}
 
 ALPH = b'ab\r\n-'
@@ -1095,10 +1106,10 @@ def run(ctx):
 
 LEVEL_TEXT = ('Machine-checked refinement proofs (Lean 4) for the synchronous BufferedReader, stated for an arbitrary lawful source so that "every chunking" is a universally quantified '
               'type-class argument: _perform_read returns exactly the requested declared bytes under every short-read pattern; _read (5 branches), peek and _read_until (6 loop exits, '
-              'cross-chunk fragment test, backlog, look-ahead chunk) refine the flat cursor, so do the public read, read_until (delimiter not consumed), pipe_until (with and without consuming), pipe, exhaust, readline and readlines, and every history of _read/_read_until calls (history_refines_cursor). The models '
+              'cross-chunk fragment test, backlog, look-ahead chunk) refine the flat cursor, so do the public read, read_until and pipe_until (with and without consuming the delimiter), pipe, exhaust, readline and readlines, and every history of these public operations (public_history_refines_cursor). The models '
               '(sync incl. nested delimited readers; async root reader) are tied to falcon/util/reader.py and falcon/asgi/reader.py on every run by a differential correspondence that '
               'compares return values, exceptions, the exact sizes requested from the source (sync) and tell()/eof (async); an independent flat-cursor oracle written from the statement '
               'decides failing inputs for both readers, including two levels of delimited sub-readers.')
-LEVEL_NOTE = ('Trusted: Lean kernel + standard axioms, the correspondence harness, the Cur oracle. Partial: read_until(consume_delimiter=True) on the delimiter-locating exits, delimit (nested readers) '
-              'and the whole async reader are carried by correspondence + oracle, not by theorems.')
+LEVEL_NOTE = ('Trusted: Lean kernel + standard axioms, the correspondence harness, the Cur oracle. Partial: delimit (nested readers) and the whole async reader are carried by correspondence + oracle, '
+              'not by theorems.')
 TECHNIQUE = 'Lean 4 refinement proof (reader model over any lawful source -> flat cursor) + differential correspondence model vs. real code + statement oracle (flat cursor with sub-cursors)'
